@@ -379,7 +379,9 @@ func CheckFaithful(d *GDoc, pb lib.PBus) []finding {
 			for name, v := range expAsg[ekey{kind: 3, msg: m.ID, sig: s.Name}] {
 				switch name {
 				case "GenSigStartValue":
-					if v.Form != 2 && ps.StartVal != v.asFloat() {
+					// declared INT, HEX or FLOAT: the number is the start value, however it is written (an
+					// ENUM declaration turns an integer into a label, a STRING one carries no number)
+					if dt := attrs[name].Type; v.Form != 2 && (dt == 0 || dt == 1 || dt == 4) && ps.StartVal != v.asFloat() {
 						add("c10-wellknown-start-value", "%s: GenSigStartValue %s, StartValue() %v", sw, fmtNum(v), ps.StartVal)
 					}
 				case "GenSigSendType":
